@@ -215,7 +215,9 @@ func executeOnce(t *testing.T, spec RunSpec) (res *RunResult) {
 
 		sort.Slice(s.Panics, func(i, j int) bool { return s.Panics[i].Task < s.Panics[j].Task })
 		for _, p := range s.Panics {
-			if p.Lib {
+			if p.Lib || panicOriginInLibrary(p.Stack) {
+				// (a panic that escapes a library call made by a harness task is the library's
+				// just as much as one in a goroutine the library started)
 				e.viol = append(e.viol, Violation{Prop: "PANIC", Class: "panic", Detail: fmt.Sprintf("T%d %s at %s: %s\n%s", p.Task, p.Name, p.Site, p.Val, trimStack(p.Stack))})
 			} else {
 				e.HarnessError("harness task T%d %s panicked: %s\n%s", p.Task, p.Name, p.Val, p.Stack)
@@ -272,6 +274,27 @@ func executeOnce(t *testing.T, spec RunSpec) (res *RunResult) {
 		}
 	})
 	return res
+}
+
+// panicOriginInLibrary reports whether the function that panicked (the first frame below the
+// runtime's panic machinery) is library code proper, not the simulator's runtime or the harness.
+func panicOriginInLibrary(st string) bool {
+	lines := strings.Split(st, "\n")
+	seenPanic := false
+	for _, l := range lines {
+		if strings.HasPrefix(l, "\t") || strings.HasPrefix(l, " ") || l == "" {
+			continue
+		}
+		if strings.HasPrefix(l, "panic(") {
+			seenPanic = true
+			continue
+		}
+		if !seenPanic || strings.HasPrefix(l, "runtime.") || strings.HasPrefix(l, "runtime/") {
+			continue
+		}
+		return strings.Contains(l, "github.com/vapourismo/knx-go/knx") && !strings.Contains(l, "/simrt.") && !strings.Contains(l, "/simnet.")
+	}
+	return false
 }
 
 func trimStack(st string) string {
@@ -362,6 +385,16 @@ func (e *Env) Call(name string, d time.Duration, fn func()) bool {
 	fin := false
 	e.S.Spawn(name, func() { fn(); fin = true })
 	return e.WaitDone(name, d, func() bool { return fin })
+}
+
+// wholeDatagram is the datagram a read record stands for: what the peer transmitted, even when the
+// reader's buffer was too small to hold it (every frame these scenarios transmit is far below any
+// size a KNXnet/IP receiver may refuse).
+func wholeDatagram(rec simnet.Rec) []byte {
+	if rec.Full != nil {
+		return rec.Full
+	}
+	return rec.Data
 }
 
 // dump renders a value without pointer addresses (violation details are part of the event log
